@@ -285,7 +285,7 @@ func (s *Store) PruneSectors(ctx context.Context, lastAccess time.Time) error {
 }
 
 func contractSectorRefs(tx *txn, sectorID int64) (contractIDs []types.FileContractID, err error) {
-	rows, err := tx.Query(`SELECT DISTINCT contract_id FROM contract_sector_roots WHERE sector_id=$1;`, sectorID)
+	rows, err := tx.Query(`SELECT DISTINCT c.contract_id FROM contract_sector_roots csr INNER JOIN contracts c ON (csr.contract_id=c.id) WHERE csr.sector_id=$1;`, sectorID)
 	if err != nil {
 		return nil, fmt.Errorf("failed to select contracts: %w", err)
 	}
